@@ -597,6 +597,39 @@ C02_SERVER_PART = {
 }
 
 
+# C14 / C09: the REAL Channel::execute(serve) adapter (harness/src/srvx.rs) against coq/ServerExec.v.
+# NB the order of the modules in the header matters: ServerExec's `RErr` (an item of the Requests
+# stream) must be shadowed by Transport's `RErr` (a poll_next answer), which is what case terms mean.
+EXEC_PART = {
+    "name": "exec",
+    "harness": "srvx",
+    "gen_args": [],
+    "cases_header": HDR.format(mods="ServerExec ServerExecMon Transport TimerWheel Server ServerMon Checks.ExecCorr"),
+    "case_term": lambda c: f"({c['cfg']}, {c['ops']}, {c['obs']})",
+    "quick": {"count": 300},
+    "thorough": {"count": 12000},
+    "sweeps": [[]],
+    "nontrivial": _tags("polled-after-error"),
+    "rule": "execute() scripts: the harness builds the real BaseChannel [-> max_concurrent_requests(L)] over the "
+            "scripted transport, wraps it in a forwarding decorator Channel that only notes gauges / the request or "
+            "error that came back (execute() consumes the channel), and calls the REAL Channel::execute(serve) = "
+            "Requests::execute = take_while(is_ok).filter_map(ok).map(execute) with script-controlled handler "
+            "futures; ops as the server scripts with P = poll the execute-stream, H<k> = poll the execute() future "
+            "yielded as item k, Y<k> / Q<k> = drop item k before / after its first poll, Z = drop the execute-stream; "
+            "a prefix (2..24 ops) from the state-aware server generator (fault, shutdown, contract, limiter biases), "
+            "then in 3 of 5 scripts a one-shot fault at poll_ready / start_send / poll_flush / poll_next with the "
+            "script POLLING ON while requests keep arriving, handlers keep finishing and further faults are armed; in "
+            "1 of 5 end of stream followed by more polls (TakeWhile does not latch the end: the Requests stream is "
+            "polled again); in 1 of 5 no error; every observation (inner call log, what the Requests stream returned, "
+            "what the adapter returned, handler events, gauges) compared with ServerExec.exec_run inside Coq; "
+            "thorough adds every 5-op sequence from an 8-op alphabet (requests, handler finish, faults at next / "
+            "flush / ready, eof, polls) with and without limiter (65 536 scripts); non-trivial = the real Requests "
+            "stream yielded an error and the script polled the execute-stream again afterwards",
+    "max_shrinks": 3,
+    "shrink_budget": 24,
+}
+
+
 def _server_spec(pid, parts, level_text, level_note, assumptions):
     chks = []
     for p in parts:
@@ -1078,7 +1111,7 @@ _add_server_half("C09", C09_SERVER_PART, "C09server",
     "never polls its handler again); the full server monitor (a failing transport call ends the poll, which reports that "
     "activity; nothing after it; no panic) is PROVED for every transport and op list (C09_server_monitor = ServerSpec.stmt_s09) "
     "and runs on the real traces on every run; for a channel driven through tarpc's own execute() adapter "
-    "(take_while/filter_map/map, coq/ServerExec.v, futures-util semantics modelled) the hypothesis stops_after_error is "
+    "(take_while/filter_map/map, coq/ServerExec.v, futures-util semantics modelled and tied to the real adapter by part exec) the hypothesis stops_after_error is "
     "discharged: C09_server_monitor_exec leaves only B1.",
     [SRV_ASSUME_ATOMIC, SRV_ASSUME_STOP])
 _add_server_half("C18", C18_SERVER_PART, "C18server",
@@ -1104,8 +1137,9 @@ SPECS["C02"]["level_text"] += (
     "server model driven to a fixpoint (ServerWake.settle); the monitor c02s_ok (no execute() left running after its "
     "cancel / deadline / the channel's drop, no finished handler or buffered response stuck while the sink is "
     "writable, every delivered message read) runs on the real traces; its two statements (settle terminates, the "
-    "monitor accepts every model run) are pinned in ServerWakeSpec.v and tested by vm_compute on 25 000 scripts; "
-    "their proofs are in progress.")
+    "monitor accepts every model run) are pinned in ServerWakeSpec.v and PROVED: C02_server_settles (every transport "
+    "state, every script) and C02_server_monitor (response buffer >= 1, wake-driven scripts), proofs "
+    "ServerWakeSettles.v / ServerWakeMon*.v.")
 
 
 
@@ -1122,6 +1156,24 @@ for _pid, _t in (
                 "unconditional) and C12_monitor (full strength outside the K1 class FreedInSamePoll) - for every "
                 "transport, environment, configuration (L = 0 included) and op list.")):
     SPECS[_pid]["level_text"] += _t
+
+
+# execute() adapter (coq/ServerExec*.v, harness `srvx`): part `exec` of C14 and C09
+EXEC_TB = [
+    "execute() adapter model coq/ServerExec.v (futures-util 0.3 TakeWhile/FilterMap/Map transcribed) is tied to the real "
+    "Channel::execute(serve) by the `srvx` driver; harness code between the script and the real adapter: a forwarding "
+    "decorator Channel that notes gauges and the item that came back, and the boxing of the yielded futures",
+]
+for _pid in ("C14", "C09"):
+    _sp = SPECS[_pid]
+    _sp["parts"] = _sp["parts"] + [EXEC_PART]
+    _sp["coq_targets"] = _sp["coq_targets"] + ["Checks/ExecCorr.vo"]
+    _sp["trusted_base"] = _sp["trusted_base"] + EXEC_TB
+    _sp["level_text"] += (
+        " Part exec: the real Channel::execute(serve) stream is hand-polled (and polled ON after the Requests stream "
+        "yielded an error) and compared observation by observation with ServerExec.exec_run inside Coq; monitor: "
+        "stops_after_error and the contract over EVERY poll of the induced run, and no item / no inner poll after the "
+        "error.")
 
 # ---- chain composition (coq/Chain*.v, harness `chain`): parts of C04, C18, C07 ----
 CHAIN_RULE = ("REAL chains of depth 1..3: node i = client::new + BaseChannel::with_defaults(rx).requests() over "
